@@ -226,12 +226,17 @@ def run(ctx):
     jobs += hist.sequences(['patient-new(A)', 'patient-new(B)', 'patient-entity-new(C)', 'patient-disassociate'], 4)
     ctx.note('histories', len(jobs))
     ctx.pmap(_work, ctx.rotate(jobs))
+    from mcx.checks import c10_sched
+    c10_sched.run(ctx)     # (b) SetContextState racing with a provider-side context change under the schedule explorer
     ctx.assumptions.append('only the patient context has a SetContextState operation in tests/mdib_tns.xml; location changes go '
                            'through SdcProvider.set_location; queued operations are executed by running the real worker loop body '
                            'synchronously after each request')
 
 
 def replay(ctx, case):
+    if case.get('kind') == 'race':
+        from mcx.checks import c10_sched
+        return c10_sched.replay(ctx, case)
     res = run_hist(case['history'])
     if res is not None:
         ctx.violation(f'{res[1]}/{">".join(case["history"])}', res[3])
